@@ -462,30 +462,32 @@ theorem Prim.eq_refl (a : Prim) (h : a.nanFree = true) : Prim.eq a a = true := b
   · exact floatEq32_refl _ h
   · exact floatEq64_refl _ h
 
-/-- `==`-equal primitives that are not a `+0/−0` pair are bit-identical -/
-theorem Prim.eq_imp_same (a b : Prim) (h : Prim.eq a b = true) (hz : Prim.sameZeroSign a b = true) :
-    a = b := by
+theorem floatEq32_normZero (a b : UInt32) (h : floatEq32 a b = true) :
+    normZero32 a = normZero32 b := by
+  simp only [floatEq32] at h
+  cases hn : (isNaN32 a || isNaN32 b) <;> simp only [hn, Bool.false_eq_true, ↓reduceIte] at h
+  simp only [isZero32] at h
+  simp only [normZero32]
+  cases za : ((a &&& 0x7FFFFFFF) == 0) <;> cases zb : ((b &&& 0x7FFFFFFF) == 0) <;>
+    simp [za, zb] at h ⊢ <;> simp_all
+
+theorem floatEq64_normZero (a b : UInt64) (h : floatEq64 a b = true) :
+    normZero64 a = normZero64 b := by
+  simp only [floatEq64] at h
+  cases hn : (isNaN64 a || isNaN64 b) <;> simp only [hn, Bool.false_eq_true, ↓reduceIte] at h
+  simp only [isZero64] at h
+  simp only [normZero64]
+  cases za : ((a &&& 0x7FFFFFFFFFFFFFFF) == 0) <;> cases zb : ((b &&& 0x7FFFFFFFFFFFFFFF) == 0) <;>
+    simp [za, zb] at h ⊢ <;> simp_all
+
+/-- `==`-equal primitives are hashed alike into any running hash (zero is normalised) -/
+theorem Prim.hashInto_congr (P : Params) (a b : Prim) (h : Prim.eq a b = true) (h0 : Hash) :
+    Prim.hashInto P h0 a = Prim.hashInto P h0 b := by
   cases a <;> cases b <;> simp only [Prim.eq, Bool.false_eq_true] at h
   · simp at h; rw [h]
   · simp at h; rw [h]
-  · rename_i x y
-    simp only [floatEq32] at h
-    simp only [Prim.sameZeroSign] at hz
-    cases hn : (isNaN32 x || isNaN32 y) <;> simp only [hn, Bool.false_eq_true, ↓reduceIte] at h
-    cases zx : isZero32 x <;> cases zy : isZero32 y <;> simp [zx, zy] at h hz
-    · rw [h]
-    · rw [h]
-    · rw [h]
-    · rw [hz]
-  · rename_i x y
-    simp only [floatEq64] at h
-    simp only [Prim.sameZeroSign] at hz
-    cases hn : (isNaN64 x || isNaN64 y) <;> simp only [hn, Bool.false_eq_true, ↓reduceIte] at h
-    cases zx : isZero64 x <;> cases zy : isZero64 y <;> simp [zx, zy] at h hz
-    · rw [h]
-    · rw [h]
-    · rw [h]
-    · rw [hz]
+  · simp only [Prim.hashInto, addFloat32, floatEq32_normZero _ _ h]
+  · simp only [Prim.hashInto, addFloat64, floatEq64_normZero _ _ h]
   · simp at h; rw [h]
   · simp at h; rw [h]
 
